@@ -11,6 +11,12 @@ CLAIMED = {
             "Trusted: refhash.rs (self-tested against the repository's real-PostgreSQL MOD 5 vectors at every run), proptest. Statement shapes are a fixed family, not a full grammar."),
 }
 
+CLAIMED["C01"] = ("wire",
+    "model-based PBT over generated multi-client histories against the real binary; history invariant over the mock backends' logs",
+    "Generated-input search at system level: 2..5 scripted clients run generated transactions (simple, multi-statement, BEGIN..COMMIT/ROLLBACK incl. failed transactions, extended batches with portal suspension, COPY IN/OUT/FAIL) concurrently against the real pgcat binary and mock PostgreSQL backends; the oracle checks on the backends' own logs that between messages of different clients on one server connection the session was idle (no open transaction, COPY or unsynced batch; session mode: previous client gone), that each client transaction stayed on one connection, and that every row a client read carries its own statement tag and the id of the connection that executed it.",
+    "DESIGN.md §4 C01",
+    "Trusted: mock backend (protocol-v3 session state machine), scripted client codec. Interleavings inside pgcat's runtime are sampled (delays, worker_threads 1/2/4), not enumerated.")
+
 NOT_YET = {}
 
 props = [json.loads(l) for l in open('/verif/properties.jsonl')]
@@ -45,8 +51,8 @@ m = {
         "add_only": True,
     },
     "engines": [
-        {"name": "wire", "path": "/verif/harness", "serves_properties": [], "kind_free_text": "real pgcat release binary (rebuilt from /repo) + scriptable mock PostgreSQL backends + scripted clients; proptest-generated scenarios, history oracles"},
-        {"name": "lib", "path": "/verif/harness", "serves_properties": ["C06"], "kind_free_text": "proptest against the pgcat library API with independent reference models"},
+        {"name": "wire", "path": "/verif/harness", "serves_properties": sorted(k for k,v in CLAIMED.items() if "wire" in v[0]), "kind_free_text": "real pgcat release binary (rebuilt from /repo) + scriptable mock PostgreSQL backends + scripted clients; proptest-generated scenarios, history oracles"},
+        {"name": "lib", "path": "/verif/harness", "serves_properties": sorted(k for k,v in CLAIMED.items() if "lib" in v[0]), "kind_free_text": "proptest against the pgcat library API with independent reference models"},
     ],
     "checks": checks,
     "not_applicable": na,
